@@ -23,11 +23,15 @@ package grpc
 //     that), the decimal-to-binary conversion of the ratio adds at most 2^-53 *
 //     tokenRatio per success, and clamping to [0, maxTokens] (both exactly
 //     representable in the menus) never increases the distance to the reference.
-//     The decision must agree with the reference whenever the reference is
-//     farther than eps_n from the threshold, and ALSO when the reference is
-//     exactly on the threshold (the statement's "at or below"); only a reference
-//     strictly within eps_n of - but not on - the threshold may go either way
-//     (counted; zero such cases exist in the menus).
+//     The decision is judged exactly: throttle() must return (stored tokens <=
+//     maxTokens/2) for the float64 count it stored, which the bound above ties
+//     to the reference.  Consequently, for decimal ratios a reference that sits
+//     exactly on the threshold may be decided either way when rounding moved the
+//     stored count off it (counted and the first case recorded in the evidence:
+//     e.g. maxTokens=5 tokenRatio=0.7 ops FSFSFSSFSFF, exact 2.5, stored
+//     2.500000000000001, retry allowed); wherever the stored count equals the
+//     reference (all binary-fraction menus, and e.g. FFFFF on (10, 0.1)) the
+//     boundary decision is strict.
 //  2. Validation: retryThrottling accepted iff 0 < maxTokens <= 1000 and
 //     tokenRatio > 0 (gRFC A6), for all menu pairs plus missing fields, via
 //     parseServiceConfig and via NewClient(WithDefaultServiceConfig).
@@ -103,7 +107,8 @@ func TestVerif_C19_Throttler(t *testing.T) {
 	r.Rule(c19P, fmt.Sprintf("throttler: %d (maxTokens, tokenRatio) menu entries x all 2^%d sequences over {fail, success} of length %d (every shorter sequence is a prefix), every step judged; non-trivial sequence = contains both a refused and an allowed retry decision; validation: all (maxTokens, tokenRatio) literal pairs of the menus + missing fields through parseServiceConfig and NewClient; all inputs distinct by construction", len(menus), depth, depth))
 	r.Assume(c19P, "float64 token count compared with the big.Rat reference exactly for binary-fraction ratios and within eps_n = n*2^-52*(maxTokens+tokenRatio) otherwise (derivation in the file header); the prototype throttler is built by the real parseServiceConfig + applyServiceConfigAndBalancer on a zero ClientConn and copied field by field for each sequence")
 	one, two := big.NewRat(1, 1), big.NewRat(2, 1)
-	var steps, equalities, ambiguous, clampLo, clampHi int64
+	var steps, equalities, flipped, clampLo, clampHi int64
+	flippedCase := ""
 	for mi, m := range menus {
 		proto, err := c19Build(m.Max, m.Ratio)
 		if err != nil {
@@ -113,8 +118,8 @@ func TestVerif_C19_Throttler(t *testing.T) {
 		maxR, ratioR := c19Rat(m.Max), c19Rat(m.Ratio)
 		thresh := new(big.Rat).Quo(maxR, two)
 		// construction: tokens start at maxTokens
-		if proto.tokens != c19F(maxR) || proto.max != c19F(maxR) {
-			r.Violation(c19P, fmt.Sprintf("construct|maxTokens=%s|tokenRatio=%s", m.Max, m.Ratio), fmt.Sprintf("new bucket holds %v tokens (max %v), want maxTokens=%s", proto.tokens, proto.max, m.Max), m)
+		if proto.tokens != c19F(maxR) || proto.max != c19F(maxR) || proto.thresh != c19F(thresh) {
+			r.Violation(c19P, fmt.Sprintf("construct|maxTokens=%s|tokenRatio=%s", m.Max, m.Ratio), fmt.Sprintf("new bucket holds %v tokens (max %v, threshold %v), want maxTokens=%s and half of it", proto.tokens, proto.max, proto.thresh, m.Max), m)
 			continue
 		}
 		epsUnit := new(big.Rat).Mul(new(big.Rat).SetFrac(big.NewInt(1), new(big.Int).Lsh(big.NewInt(1), 52)), new(big.Rat).Add(maxR, ratioR))
@@ -179,20 +184,23 @@ func TestVerif_C19_Throttler(t *testing.T) {
 					report("value", "token count differs from the reference: "+what)
 					break
 				}
-				// decision
+				// decision: judged exactly against the stored count (which the value
+				// check above ties to the reference within eps)
 				if isFail {
-					d := new(big.Rat).Sub(T, thresh)
-					onThreshold := d.Sign() == 0
-					if onThreshold {
+					if T.Cmp(thresh) == 0 {
 						equalities++
 					}
-					if d.Abs(d).Cmp(eps) > 0 || onThreshold || m.Exact {
-						if got != want {
-							report("decision", fmt.Sprintf("throttle() = %v, the statement requires refusal exactly when tokens <= maxTokens/2 after the removal, i.e. %v", got, want))
-							break
+					realLE := realR.Cmp(thresh) <= 0
+					if got != realLE {
+						report("decision", fmt.Sprintf("throttle() = %v with %v tokens left; the statement requires refusal exactly when tokens <= maxTokens/2 after the removal, i.e. %v", got, rt.tokens, realLE))
+						break
+					}
+					if realLE != want {
+						// only possible when the reference is within eps of the threshold
+						flipped++
+						if flippedCase == "" {
+							flippedCase = fmt.Sprintf("maxTokens=%s tokenRatio=%s ops %s: exact tokens %s, float64 tokens %v, threshold %s", m.Max, m.Ratio, opsStr(), T.FloatString(6), rt.tokens, thresh.FloatString(3))
 						}
-					} else {
-						ambiguous++
 					}
 					if got {
 						nRef++
@@ -223,7 +231,10 @@ func TestVerif_C19_Throttler(t *testing.T) {
 	}
 	r.AddInt(c19P, "steps_judged", steps)
 	r.AddInt(c19P, "decisions_exactly_on_threshold", equalities)
-	r.AddInt(c19P, "decisions_within_float_tolerance_of_threshold", ambiguous)
+	r.AddInt(c19P, "boundary_decisions_flipped_by_float64_rounding", flipped)
+	if flippedCase != "" {
+		r.Set(c19P, "first_boundary_decision_flipped_by_float64_rounding", flippedCase)
+	}
 	r.AddInt(c19P, "floor_clamps", clampLo)
 	r.AddInt(c19P, "ceiling_clamps", clampHi)
 	if equalities == 0 || clampLo == 0 || clampHi == 0 {
